@@ -5,6 +5,7 @@ from ..interp_prop import InterpProp
 
 class C06(InterpProp):
     id = 'C06'
+    decoy = 0.12
     # observables compared with the model (see InterpProp.normalize)
     cmp_eff = ()
     cmp_step = ('transition', 'entered', 'exited')
